@@ -38,6 +38,13 @@ import (
 
 func init() {
 	props["C19"] = prop{Run: runC19, Replay: func(id string, raw json.RawMessage) {
+		var w struct {
+			CI *c19CustomImpl `json:"custom_impl"`
+		}
+		if json.Unmarshal(raw, &w) == nil && w.CI != nil {
+			runC19CustomImpl(id, w.CI)
+			return
+		}
 		var c c19Case
 		if json.Unmarshal(raw, &c) == nil {
 			runC19Case(id, &c)
@@ -687,7 +694,90 @@ func runC19(seed uint64, n int, tier string) {
 		}
 		n = len(cases)
 	}
-	parallel(n, func(i int) { runC19Case(caseID("C19", seed, i), cases[i]) })
+	// the user's own implementation is one of the library's transports: the options that name its
+	// settings take effect on it, through every constructor and at every position
+	var cis []*c19CustomImpl
+	for _, k := range []string{"g", "n", "c"} {
+		for _, impl := range []string{"file", "system"} {
+			for pos := 0; pos < 3; pos++ {
+				cis = append(cis, &c19CustomImpl{Kind: k, Impl: impl, Pos: pos})
+			}
+		}
+	}
+	parallel(n+len(cis), func(i int) {
+		if i < n {
+			runC19Case(caseID("C19", seed, i), cases[i])
+		} else {
+			runC19CustomImpl(caseID("C19", seed, i), cis[i-n])
+		}
+	})
+}
+
+// c19CustomImpl: WithCustomTransport(impl) where impl is a *transport.File / *transport.System the
+// user built, together with the options that name that object's settings (oracle only: the model's
+// user implementation is an opaque object).
+type c19CustomImpl struct {
+	Kind string `json:"kind"` // g | n | c
+	Impl string `json:"impl"` // file | system
+	Pos  int    `json:"pos"`  // 0: the setting's option first, 1: right after WithCustomTransport, 2: last
+}
+
+func runC19CustomImpl(id string, c *c19CustomImpl) {
+	defer watchCase(id, map[string]interface{}{"custom_impl": c})()
+	cs := &Case{ID: id, Kind: "custom-impl/" + c.Kind + "/" + c.Impl, HypOK: true, Nontrivial: true, Replay: map[string]interface{}{"custom_impl": c}}
+	var impl transport.Implementation
+	var own []util.Option
+	f := &transport.File{}
+	sy := &transport.System{}
+	if c.Impl == "file" {
+		impl = f
+		own = []util.Option{options.WithFileTransportFile("/nonexistent/c19-session")}
+	} else {
+		impl = sy
+		own = []util.Option{options.WithSystemTransportOpenBin("/opt/c19/ssh"), options.WithSystemTransportOpenArgs([]string{"-v", "-4"})}
+	}
+	others := []util.Option{options.WithPort(2022), options.WithAuthUsername("c19"), options.WithTimeoutOps(3 * time.Second)}
+	custom := options.WithCustomTransport(impl)
+	var opts []util.Option
+	switch c.Pos {
+	case 0:
+		opts = append(append(append(opts, own...), custom), others...)
+	case 1:
+		opts = append(append(append(opts, custom), own...), others...)
+	default:
+		opts = append(append(append(opts, others...), custom), own...)
+	}
+	var err error
+	switch c.Kind {
+	case "g":
+		_, err = generic.NewDriver("sim", opts...)
+	case "n":
+		opts = append(opts, options.WithPrivilegeLevels(c19PrivMap([]string{"^a#$"})), options.WithDefaultDesiredPriv("p0"))
+		_, err = network.NewDriver("sim", opts...)
+	default:
+		_, err = netconf.NewDriver("sim", opts...)
+	}
+	if err != nil {
+		cs.Obs = "error " + errClass(err)
+		cs.Oracle = "constructor failed: " + err.Error()
+		cs.Sig = "C19:custom-impl-error"
+		emit(cs)
+		return
+	}
+	if c.Impl == "file" {
+		cs.Obs = "F=" + f.F
+		if f.F != "/nonexistent/c19-session" {
+			cs.Oracle = fmt.Sprintf("WithFileTransportFile given next to WithCustomTransport(*transport.File): the file transport's F is %q", f.F)
+			cs.Sig = "C19:custom-impl-option-lost"
+		}
+	} else {
+		cs.Obs = fmt.Sprintf("OpenBin=%s ExtraArgs=%v", sy.OpenBin, sy.ExtraArgs)
+		if sy.OpenBin != "/opt/c19/ssh" || len(sy.ExtraArgs) != 2 || sy.ExtraArgs[0] != "-v" || sy.ExtraArgs[1] != "-4" {
+			cs.Oracle = fmt.Sprintf("WithSystemTransportOpenBin/OpenArgs given next to WithCustomTransport(*transport.System): OpenBin %q ExtraArgs %v", sy.OpenBin, sy.ExtraArgs)
+			cs.Sig = "C19:custom-impl-option-lost"
+		}
+	}
+	emit(cs)
 }
 
 // ---------------------------------------------------------------- platform YAML
